@@ -7,6 +7,8 @@
 (*  GSpecGet   one encrypted chunk of a TLC-chosen span, fetched through the *)
 (*             decrypting store; spans are chosen digit-wise around every    *)
 (*             level boundary of the encrypted trie              (exh mode)  *)
+(*  GSpecFile  small files through the real encrypted pipeline, every chunk  *)
+(*             the writer stored read back                       (exh mode)  *)
 EXTENDS Encrypt, TLC, Json, IOUtils
 
 VARIABLES hist, par
@@ -59,6 +61,15 @@ GInitG == /\ c = Fresh(0) /\ resA = [op |-> "new"]
           /\ hist \in {<<GetOp(<<0, 0, 0, 0>>, 0)>>}
                   \cup {<<GetOp(<<d0, d1, d2, d3>>, t)>> : d0 \in DigitCls, d1 \in DigitCls, d2 \in DigitCls,
                                                            d3 \in TopCls, t \in LastCls}
+\* files written through the real encrypted pipeline: full chunks + a last chunk of `last` bytes
+FullCls == IF "VERIF_BIGFILES" \in DOMAIN IOEnv THEN {0, 1, 2, 3, 7, 33, 64} ELSE {0, 1, 2, 3, 7}
+LastOfFile == {0, 1, 63, 4096, RealCS - 1}
+GInitF == /\ c = Fresh(0) /\ resA = [op |-> "new"]
+          /\ par = [kind |-> "file"]
+          /\ hist \in {<<[op |-> "upload", full |-> f, last |-> x]>> : f \in FullCls, x \in LastOfFile}
+GSpecFile == GInitF /\ [][UNCHANGED <<varsA, hist, par>>]_<<varsA, hist, par>>
+EmitFile  == PrintT(<<"SCN", ToJson([par |-> par, ops |-> hist])>>)
+
 GSpecGet == GInitG /\ [][UNCHANGED <<varsA, hist, par>>]_<<varsA, hist, par>>
 EmitGet  == PrintT(<<"SCN", ToJson([par |-> par, ops |-> hist])>>)
 =============================================================================
